@@ -73,7 +73,9 @@ func TestC17(t *testing.T) {
 	root := verifx.Scratch("c17")
 	defer os.RemoveAll(root)
 	conds := []string{"score >= 0", "score >= 1", "score >= 2", "score >= 3", "score >= 4", "entropy >= 0", "entropy >= 20", "entropy >= 60", "time >= 0", "time >= 3600", "time >= 1000000000"}
-	pws := []string{"a", "password", "whawty1", "bob1", "correcthorse1", "Tr0ub4dor&3", "correct horse battery staple", "xK9#mQ2$vL7@pR4!nW8^zT5&hJ3*bF6", "qwerty123", "aaaaaaaaaaaaaaaa"}
+	pws := []string{"a", "password", "whawty1", "bob1", "correcthorse1", "Tr0ub4dor&3", "correct horse battery staple", "xK9#mQ2$vL7@pR4!nW8^zT5&hJ3*bF6", "qwerty123", "aaaaaaaaaaaaaaaa",
+		// long but weak passwords (a policy must not be skipped for "expensive" inputs)
+		strings.Repeat("a", 129), strings.Repeat("password", 17)}
 	unames := []string{"bob", "correcthorse"}
 	if !ev.Thorough() {
 		conds = []string{"score >= 0", "score >= 2", "score >= 3", "score >= 4", "entropy >= 20", "entropy >= 60", "time >= 3600", "time >= 1000000000"}
